@@ -36,6 +36,14 @@ CHECKS = {
          "Every program of the generated families is rendered on a fresh compile by the real engine and compared byte for byte with an independent interpreter of the same tree written from the property text; forloop fields are printed at every iteration and nesting depth, so off-by-one and boundary faults show for some enumerated length.",
          "Reference semantics: DESIGN.md Appendix A.1/A.4. Programs the property leaves open are counted, not judged.",
          "DESIGN.md §3 C09"),
+ "C12": ("bounded-exhaustive generation of all nestings (depth <=3/4) and two-construct sequences of binding constructs with colliding names, probed before/inside/after, compared with a reference environment model; deep snapshot of caller Context and Globals around every execution",
+         "All nestings and sequences over 11 binding constructs are rendered and compared with an independent environment model in which every binding carries a unique literal, so the output names which binding is visible at every probe; caller data is deep-compared before and after each execution of every generated program (here and in C09/C13).",
+         "Reference environment: DESIGN.md Appendix A.5 (child scopes copy, set binds at its own level, globals < context < tag scope, globals visible under include only).",
+         "DESIGN.md §3 C12"),
+ "C13": ("bounded-exhaustive generation of macro signatures x default subsets x argument counts/kinds x definition routes against a reference binding model; all base-case-free call graphs over <=3 macros x file placements executed in isolated sub-processes",
+         "Every signature/call combination within the bounds is rendered through a local definition, an import and an aliased import and compared with the reference binding; every recursion graph is run in a fresh process whose death (stack overflow) or hang is a violation, and must yield an execution error.",
+         "Process isolation with a 64 MB stack cap makes unbounded recursion observable within a second; reference binding: DESIGN.md Appendix A.5.",
+         "DESIGN.md §3 C13"),
 }
 
 NOT_YET = {}
